@@ -64,8 +64,12 @@ fn with_failure(mut p: refasm::Program, pos: usize, which: usize) -> refasm::Pro
     p.lines.insert(at, Line::stmt(None, Stmt::new(op, &regs, Operand::Label("FARAWAY".into()))));
     // barely / comfortably / far out of reach (the reference decides what is out of reach)
     let reach = 1i32 << (op.pcrel_bits().unwrap() - 1);
-    let pad = [reach, reach + 1, reach + 33, 2 * reach - 7, 3000][(which / 5) % 5];
-    p.lines.push(Line::stmt(None, Stmt::new(Op::Blkw, &[], Operand::Lit(refasm::Lit::Dec(pad)))));
+    // ... or at a distance of 32,767 / 32,768 / 32,769 words, where 16-bit arithmetic on the
+    // distance itself ends
+    let words_after: i32 = p.lines[at + 1..].iter().map(|l| if let Body::Stmt(s) = &l.body { s.size().unwrap_or(1) as i32 } else { 0 }).sum();
+    let exact = (32_768 - words_after).max(1);
+    let pad = [reach, reach + 1, reach + 33, 2 * reach - 7, 3000, exact - 1, exact, exact + 1][(which / 5) % 8];
+    p.lines.push(Line::stmt(None, Stmt::new(Op::Blkw, &[], Operand::Lit(refasm::Lit::Hex(pad as u16, 0)))));
     p.lines.push(Line::stmt(Some("FARAWAY"), Stmt::simple(Op::Halt)));
     p
 }
